@@ -6,7 +6,8 @@ spawn_children_distinct, vi_key_schedule.
 Tie (class E): generated programs (nested contexts, raw pushes/pops, draws of several kinds, spawns, raised exceptions)
 are interpreted on the REAL module and by the model; compared: outcome (ok / IndexError / RuntimeError / user exception),
 the stack bottom->top (identity class of the seed-sequence object, entropy, spawn_key, n_children_spawned) and the
-partition of all draws into equality classes (two real draws are equal iff the model gives them the same token).
+partition of all draws into equality classes (two real draws are equal iff the model gives them the same
+(entropy, spawn_key, stream offset, size); draws are uniform float64 arrays, which consume a fixed amount of the stream).
 Oracle (real code only): a context entered from an arbitrary pre-history restores the identical generator object with
 the identical bit-generator state when left normally or by an exception, and the values drawn inside equal those drawn
 in a pristine process state with the same seed.
@@ -57,15 +58,18 @@ def _reset():
     rnd._rng = [np.random.default_rng(ss)]
 
 
+def _size(req):
+    return 1 + req % 4
+
+
 def _draw(req):
+    """uniform float64 draws only: they consume a FIXED amount of the bit stream (one 64-bit word per element), so the
+    position in the stream — and with it equality of two draws — is computable from the request history.  (A normal
+    draw consumes a data-dependent amount: `normal(1); uniform(1)` and `uniform(1); uniform(1)` may or may not end at
+    the same position, so no sound 'different history => different value' statement exists for them.)"""
     import numpy as np
     from nifty.cl.random import Random
-    kind, n = req % 3, 1 + (req // 3) % 3
-    if kind == 0:
-        return Random.normal(np.float64, (n,)).tobytes()
-    if kind == 1:
-        return Random.uniform(np.float64, (n,)).tobytes()
-    return Random.pm1(np.int64, (64 * n,)).tobytes()
+    return Random.uniform(np.float64, (_size(req),)).tobytes()
 
 
 def _interp(cmds, env):
@@ -134,7 +138,8 @@ def _model_view(m):
         return m
     ids = _classes([f[0] for f in m["stack"]])
     return dict(outcome=m["outcome"], stack=[[i, f[1], f[2], f[3]] for i, f in zip(ids, m["stack"])],
-                draw_classes=_classes([canon(t) for t in m["tokens"]]), stacks_parallel=True)
+                draw_classes=_classes([canon([t[0], t[1], sum(_size(r) for r in t[2][:-1]), _size(t[2][-1])])
+                                       for t in m["tokens"]]), stacks_parallel=True)
 
 
 # ------------------------------------------------------------------------------------------------------
